@@ -453,12 +453,14 @@ def h_wrong(ctx, part):
 def cases(tier):
     WIDE["on"] = tier == "thorough"
     cs = []
-    for i, r in enumerate(T.ROWS):
-        cs.append(Case("row-%d-%s" % (r[0], r[1]), h_row, {"idx": i}))
+    # (the few event cases first: they are the ones with a history - decode, add_type, decode - and a run that
+    # finds a violation stops early)
     for i, e in enumerate(T.EVENTS):
         cs.append(Case("event-%s" % e[1], h_event, {"idx": i}))
     cs.append(Case("event-ambiguous", h_generic_event, {"which": "ambiguous"}))
     cs.append(Case("event-unknown", h_generic_event, {"which": "unknown"}))
+    for i, r in enumerate(T.ROWS):
+        cs.append(Case("row-%d-%s" % (r[0], r[1]), h_row, {"idx": i}))
     for part in sorted(T.MODULE_OF_PART):
         cs.append(Case("wrong-%d" % part, h_wrong, {"part": part}))
     return cs
